@@ -336,7 +336,7 @@ func stPatch[T Obj](s *Store, k Kind, ns, name string, pt types.PatchType, data 
 	// the two documented Invalid cases of ReleasePod
 	var p struct {
 		Metadata struct {
-			UID             types.UID           `json:"uid"`
+			UID             types.UID        `json:"uid"`
 			OwnerReferences []map[string]any `json:"ownerReferences"`
 		} `json:"metadata"`
 	}
